@@ -38,8 +38,12 @@ def gen(tier, seed, index):
     forced = [G.FORCED[(index // 8) % len(G.FORCED)]]
     if 'inf-weight' in forced:
         forced = ['plain']
+    big_scc = (index // 16) % 2 == 1        # SCCs of 3-5 mutually recursive nonterminals with chords
+    if index % 11 == 5:
+        forced = ['unproductive-nt']
     spec = G.gen_spec(rng, cls, forced, wdomain='log' if grid else 'real', grid=grid, allow_inf=False,
-                      max_nodes=5 if tier == 'thorough' else 4)
+                      max_nodes=5 if tier == 'thorough' else 4, max_scc=5 if big_scc else 3, max_nts=5 if big_scc else 4,
+                      max_dom=2 if big_scc else 3)
     return spec, dict(cls=cls, grid=grid, forced=forced)
 
 
